@@ -112,6 +112,7 @@ def compare_shard(suite, shard, outs, stats, divs, maxdiv=200, collect=None):
         if owned: stats.owned_hist += 1
         if len(stats.samples) < 3: stats.samples.append({'cfg': cfg, 'ops': ops[:12]})
         broken = False
+        nspec = 0
         prev = ''
         got = []
         if collect is not None: collect.append((header, cfg, ops, got))
@@ -131,13 +132,14 @@ def compare_shard(suite, shard, outs, stats, divs, maxdiv=200, collect=None):
                 if s.startswith('+'): stats.contract_steps += 1
                 else: stats.offcontract_steps += 1
             prev = CA_RE.sub('', m.split(' | ev=')[0]).split(' | ', 1)[-1]
-            if broken: continue
-            if m != i:
+            if m != i and not broken:
                 broken = True
                 if len(divs) < maxdiv: divs.append(Div(suite, header, cfg, ops, idx, 'tie', m, i))
-            if s.startswith('+ ') and s[2:] != CA_RE.sub('', i):
-                broken = True
-                if len(divs) < maxdiv: divs.append(Div(suite, header, cfg, ops, idx, 'spec', s[2:], CA_RE.sub('', i)))
+            # the Spec stays the reference for the whole history (as long as the history respects the contract):
+            # keep looking for steps where the implementation departs from it, also after the first divergence
+            if s.startswith('+ ') and s[2:] != CA_RE.sub('', i) and nspec < 6 and not i.startswith('<missing'):
+                nspec += 1
+                if len(divs) < maxdiv * 4: divs.append(Div(suite, header, cfg, ops, idx, 'spec', s[2:], CA_RE.sub('', i)))
         # live line: model and impl only
         m, mi = nxt(ml, mi); i, ii = nxt(il, ii)
         got.append(i)
